@@ -177,11 +177,11 @@ def build_unit(unit, overlay=None):
         if r.returncode != 0:
             raise RuntimeError("link failed for %s:\n%s" % (unit["name"], r.stderr[-6000:]))
         os.replace(tmp, binp)
-        # keep the 6 most recent binaries of the same unit+tag (concurrent builds with other overlays may be using theirs)
+        # keep the 12 most recent binaries of the same unit+tag (concurrent builds with other overlays may be using theirs)
         pref = "%s-%s-" % (unit["name"], tag)
         olds = sorted((os.path.getmtime(os.path.join(bindir, f)), f) for f in os.listdir(bindir)
                       if f.startswith(pref) and ".tmp" not in f and os.path.join(bindir, f) != binp)
-        for _, f in olds[:-5]:
+        for _, f in olds[:-11]:
             try:
                 os.remove(os.path.join(bindir, f))
             except OSError:
